@@ -328,6 +328,18 @@ func (H) Execute(x *common.Exec, s any) {
 		all = append(all, h...)
 	}
 	x.NonTrivial = nt >= 1 && sc.Consumer && len(all) >= 3
+	for _, r := range all {
+		switch r.Op.K {
+		case "close":
+			x.Fault("queue-closed-concurrently")
+		case "cancel":
+			x.Fault("consumer-context-cancelled")
+		case "ins":
+			if r.Out == "err" {
+				x.Fault("insert-after-close")
+			}
+		}
+	}
 	// Lost wake-up: the consumer is still waiting although something is
 	// pending, the queue is closed, or its context is cancelled.
 	if consumer != nil && !x.R.TaskDone(consumer) {
